@@ -384,3 +384,38 @@ pub fn spawn_join_inside(tasks: usize) -> u64 {
 pub fn spawn_join_inside_expected(tasks: usize) -> u64 {
     (0..tasks).map(|t| 1 + 2 * (work(t as u64, 10) & 0xf)).sum()
 }
+
+/// Blocks of cells taken with one `fetch_add`, the output range with a second one, workers are
+/// the items of a parallel iterator over `0..current_num_threads()`. Returns true iff the results
+/// came out in cell order.
+pub fn two_counters(n_cells: usize, block: usize, cell_work: u32) -> bool {
+    let next_cell = AtomicUsize::new(0);
+    let next_slot = AtomicUsize::new(0);
+    let worker = |_: usize| {
+        let mut blocks = vec![];
+        loop {
+            let start = next_cell.fetch_add(block, Ordering::Relaxed);
+            if start >= n_cells {
+                break;
+            }
+            let end = (start + block).min(n_cells);
+            let n_active = (start..end).filter(|c| c % 7 != 3).count();
+            if n_active == 0 {
+                continue;
+            }
+            let first_slot = next_slot.fetch_add(n_active, Ordering::Relaxed);
+            let results: Vec<(usize, u64)> = (start..end).filter(|c| c % 7 != 3).map(|c| (c, work(c as u64, cell_work))).collect();
+            blocks.push((first_slot, results));
+        }
+        blocks
+    };
+    let per_worker: Vec<Vec<(usize, Vec<(usize, u64)>)>> = (0..rayon::current_num_threads()).into_par_iter().map(worker).collect();
+    let mut ordered: Vec<Option<(usize, u64)>> = vec![None; next_slot.into_inner()];
+    for (first_slot, results) in per_worker.into_iter().flatten() {
+        for (slot, r) in ordered[first_slot..].iter_mut().zip(results) {
+            *slot = Some(r);
+        }
+    }
+    let flat: Vec<(usize, u64)> = ordered.into_iter().flatten().collect();
+    flat.windows(2).all(|w| w[0].0 < w[1].0)
+}
